@@ -4,7 +4,7 @@
     Proofs/Writers.v. *)
 From Coq Require Import String List NArith Bool.
 From AGH Require Import Base.FS Proofs.FS Model.Writers Gen.Writers Proofs.Writers Model.SaveLoop Proofs.SaveLoop
-  Proofs.SaveOverlap Proofs.SaveSetUrl Proofs.SaveStatus Proofs.SaveMigrate Proofs.SaveIds.
+  Proofs.SaveOverlap Proofs.SaveSetUrl Proofs.SaveStatus Proofs.SaveMigrate Proofs.SaveIds Proofs.SaveRemove.
 Import ListNotations.
 Local Open Scope N_scope.
 
@@ -944,3 +944,34 @@ Example C14_reenable_after_restart :
   (snd (fst (call false)) = SetOk true /\ fin (call false) = Some file) /\
   (snd (fst (call true)) = SetOk true /\ fin (call true) = None).
 Proof. exact reenable_after_restart. Qed.
+
+(** ** Round 8 (O): remove_url.  For every array, every other array whose ids
+    are distinct from it, and every index: the file renamed away is the removed
+    entry's own; the entry leaves the array, every other entry stays; no list
+    that is still configured, in either array, has the id whose file went. *)
+Theorem C14_remove_touches_only_its_own_file : forall arr others k id,
+  NoDup (arr ++ others) -> nth_error arr k = Some id ->
+  let r := remove_list false arr k in
+  snd r = Some id /\ fst r = remove_at arr k /\
+  ~ In id (fst r ++ others) /\
+  (forall x, In x arr -> x <> id -> In x (fst r)).
+Proof. exact remove_touches_only_its_own_file. Qed.
+Print Assumptions C14_remove_touches_only_its_own_file.
+
+(** REFUTED variant (the path computed through a pointer into the array after
+    slices.Delete): whenever the removed list has a successor in its array, the
+    successor's file is renamed away, and the successor is still configured. *)
+Theorem C14_pointer_after_delete_renames_successor : forall arr k id nxt,
+  NoDup arr -> nth_error arr k = Some id -> nth_error arr (S k) = Some nxt ->
+  let r := remove_list true arr k in
+  snd r = Some nxt /\ In nxt (fst r) /\ nxt <> id.
+Proof. exact pointer_after_delete_renames_successor. Qed.
+Print Assumptions C14_pointer_after_delete_renames_successor.
+
+Example C14_remove_witness :
+  remove_list false [1; 2; 3] 0 = ([2; 3], Some 1) /\
+  remove_list true [1; 2; 3] 0 = ([2; 3], Some 2) /\
+  remove_list false [1; 2; 3] 2 = ([1; 2], Some 3) /\
+  remove_list true [1; 2; 3] 2 = ([1; 2], None) /\
+  remove_list false [1; 2; 3] 5 = ([1; 2; 3], None).
+Proof. exact remove_witness. Qed.
